@@ -190,6 +190,22 @@ func VerifH_C05_getCFilter() {
 	if vpRange("cap", 0, vpParam("caps", 1)) == 1 {
 		opts = append(opts, MaxBatchSize(2))
 	}
+	// a database written by an older release may hold an entry with an empty
+	// value for a block (a placeholder, not a filter): it justifies nothing
+	// (quick: for the requested block; thorough: for any block)
+	ph := 0
+	switch vpParam("placeholders", 1) {
+	case 1:
+		ph = target * vpRange("emptyDatabaseEntryForTheTarget", 0, 1)
+	case 2:
+		ph = vpRange("emptyDatabaseEntryFor", 0, nblocks)
+	}
+	if ph > 0 {
+		pbh := hdrs[ph].BlockHash()
+		perr := realDB.PutFilters(&filterdb.FilterData{Filter: nil, BlockHash: &pbh, Type: filterdb.RegularFilter})
+		vpAssert(perr == nil, "placeholder-written")
+		vpReach("database-holds-an-empty-entry")
+	}
 	th := hdrs[target].BlockHash()
 	got, gerr := s.GetCFilter(th, wire.GCSFilterRegular, opts...)
 	if persist {
@@ -243,15 +259,15 @@ func VerifH_C05_getCFilter() {
 	for j := 1; j <= nblocks; j++ {
 		bh := hdrs[j].BlockHash()
 		_, cerr := s.FilterCache.Get(FilterCacheKey{BlockHash: bh, FilterType: filterdb.RegularFilter})
-		_, derr := fdb.FetchFilter(&bh, filterdb.RegularFilter)
-		if cerr == nil || derr == nil {
+		dbf, derr := fdb.FetchFilter(&bh, filterdb.RegularFilter)
+		if cerr == nil || (derr == nil && dbf != nil) {
 			vpAssert(justified(j), "stored-filter-came-from-a-well-formed-response-for-that-block")
 		}
 		if cf, err := s.FilterCache.Get(FilterCacheKey{BlockHash: bh, FilterType: filterdb.RegularFilter}); err == nil {
 			vpReach("cached")
 			vpAssert(j <= ft && vpFilterVerifies(cf.Filter, committed, j), "cached-filter-matches-committed-header")
 		}
-		if df, err := fdb.FetchFilter(&bh, filterdb.RegularFilter); err == nil {
+		if df, err := fdb.FetchFilter(&bh, filterdb.RegularFilter); err == nil && df != nil {
 			vpReach("persisted")
 			vpAssert(j <= ft && vpFilterVerifies(df, committed, j), "persisted-filter-matches-committed-header")
 		}
